@@ -111,7 +111,8 @@ theorem create_ok (s : State) (r : Req) (nf : Bytes) (hnf : r.nf = some nf) (hp 
     (hb : r.bad = false) :
     ∃ (ue' : Ue) (rec1 : Record) (sid : Bytes), (create s r).2.status = 201 ∧ (create s r).1.ues = putUe s.ues ue' ∧
       rec1.usage = toRecUsage r.usages ∧ ue'.records = (ueOr s r).records ++ [rec1] ∧
-      ue'.cdr = setSid (ueOr s r).cdr sid (ueOr s r).records.length ∧ ue'.supi = (ueOr s r).supi := by
+      ue'.cdr = (if r.one then (ueOr s r).cdr else setSid (ueOr s r).cdr sid (ueOr s r).records.length) ∧
+      ue'.supi = (ueOr s r).supi := by
   unfold create ueOr
   simp only [hnf, hp, hb, not_true_eq_false, if_false, Bool.false_eq_true]
   refine ⟨_, _, _, trivial, rfl, ?_, rfl, rfl, rfl⟩
@@ -127,11 +128,11 @@ theorem create_rej (s : State) (r : Req) (h : r.nf = none ∨ supiAccepted r.sup
     | some nf => simp [h]
 
 /-- a create that OpenCDR refuses (malformed PLMN id, incomplete PDU session information): answered 400; by then the
-    subscriber context exists, its notification address is the request's, and a session-based create has used up
-    a sequence number - accounts, reservations, records and session map are as before -/
+    subscriber context exists (empty if the subscriber was unknown) and a session-based create has used up a sequence
+    number - accounts, reservations, records, session map and notification address are as before -/
 theorem create_bad (s : State) (r : Req) (nf : Bytes) (hnf : r.nf = some nf) (hp : supiAccepted r.supi = true)
     (hb : r.bad = true) :
-    create s r = ({ s with ues := putUe s.ues { ueOr s r with notifyUri := r.uri },
+    create s r = ({ s with ues := putUe s.ues (ueOr s r),
                            sessionSeq := if r.one then s.sessionSeq else s.sessionSeq + 1 }, { status := 400 }) := by
   unfold create ueOr
   simp only [hnf, hp, hb, not_true_eq_false, if_false, if_true]
@@ -166,17 +167,15 @@ theorem usage_create (guard : SplitGuard) (s : State) (r : Req) (supi : Bytes) (
     | true =>
       -- refused by OpenCDR: nothing is recorded
       have e := create_bad s r nf hnf hp hb
-      have hues : (create s r).1.ues = putUe s.ues { ueOr s r with notifyUri := r.uri } := by rw [e]
+      have hues : (create s r).1.ues = putUe s.ues (ueOr s r) := by rw [e]
       have hst : (create s r).2.status = 400 := by rw [e]
-      have hidx' : IdxOK { ueOr s r with notifyUri := r.uri } := hidx
-      refine ⟨?_, allIdx_ues hinv hidx' hues⟩
+      refine ⟨?_, allIdx_ues hinv hidx hues⟩
       simp only [hst, show ¬ (400 = 201) by decide, false_and, if_false, List.append_nil]
       by_cases hs : r.supi = supi
       · subst hs
         have := usageOf_ues_same (s := s) hues
         simp only [hsupi] at this
         rw [this, hprev]
-        exact List.Perm.refl _
       · rw [usageOf_ues_other hues supi (by simp only [hsupi]; exact fun h => hs h.symm)]
     | false =>
     obtain ⟨ue', rec1, sid, hst, hues, hru, hrecs, hcdr, hsup'⟩ := create_ok s r nf hnf hp hb
@@ -184,9 +183,13 @@ theorem usage_create (guard : SplitGuard) (s : State) (r : Req) (supi : Bytes) (
       intro p hp'
       rw [hcdr] at hp'
       rw [hrecs, List.length_append]
-      rcases mem_setSid hp' with rfl | h'
-      · simp
-      · have := hidx p h'; simp; omega
+      by_cases h1 : r.one = true
+      · simp only [h1, if_true] at hp'
+        have := hidx p hp'; simp; omega
+      · simp only [h1, if_false, Bool.false_eq_true] at hp'
+        rcases mem_setSid hp' with rfl | h'
+        · simp
+        · have := hidx p h'; simp; omega
     refine ⟨?_, allIdx_ues hinv hidx' hues⟩
     by_cases hs : r.supi = supi
     · subst hs
@@ -474,14 +477,12 @@ theorem rejected_view (guard : SplitGuard) (s : State) (op : Op)
         simp only
         by_cases hs : supi = r.supi
         · subst hs
-          have h1 : ({ ueOr s r with notifyUri := r.uri } : Ue).supi = r.supi := ueOr_supi s r
-          have key := findUe_putUe_same s.ues { ueOr s r with notifyUri := r.uri }
+          have h1 : (ueOr s r).supi = r.supi := ueOr_supi s r
+          have key := findUe_putUe_same s.ues (ueOr s r)
           rw [h1] at key
           rw [key]
           unfold ueOr
           cases hf : findUe s.ues r.supi <;> rfl
-        · rw [findUe_putUe_other _ _ _ (by
-            show supi ≠ ({ ueOr s r with notifyUri := r.uri } : Ue).supi
-            rw [show ({ ueOr s r with notifyUri := r.uri } : Ue).supi = r.supi from ueOr_supi s r]; exact hs)]
+        · rw [findUe_putUe_other _ _ _ (by rw [ueOr_supi s r]; exact hs)]
 
 end Chf.Charging
